@@ -31,6 +31,16 @@ pub const C08_SIGS: &[(&str, &str, &str, &str)] = &[
     ("big-rec", "record big { a: u64, b: u64, c: u64, d: u64, e: u64, f: u64, g: u64, h: u64, i: string, j: string, k: string, l: string, m: u8 }", "b: big", "big"),
     ("res-only-err", "", "a: u32", "result<_, string>"),
     ("str-flat4", "", "s: string, t: string", "string"),
+    // results whose alignment exceeds the alignment of the end of the parameter record (async import: one block)
+    ("align8", "", "a: u32, b: u32, c: u32, d: u32, e: u32", "u64"),
+    ("align4", "", "a: u8, b: u8, c: u8, d: u8, e: u8", "f32"),
+    ("align8-str", "", "a: u8, s: string, b: u8, c: u16, d: u8", "tuple<u8, f64>"),
+    // borrows of an imported resource lent to the export: dropped before task.return / before returning
+    ("borrow", "resource thing { constructor(a: u32); }", "b: borrow<thing>, n: u32", ""),
+    ("borrow-ret", "resource thing { constructor(a: u32); }", "b: borrow<thing>, c: borrow<thing>, l: list<u8>", "u32"),
+    // (a bare `error-context` result makes the generator panic: post_return asserts a return pointer)
+    ("errctx", "", "e: error-context, n: u32", "tuple<error-context, u32>"),
+    ("errctx-nested", "", "o: option<error-context>, l: list<error-context>", "result<u32, error-context>"),
 ];
 
 pub const C08_VARIANTS: &[(&str, &[&str])] = &[("ss", &[]), ("as", &["--async=import:f"]), ("sa", &["--async=export:g"]), ("aa", &["--async=import:f,export:g"])];
@@ -68,6 +78,7 @@ interface imp {
   consume: func(s: slot, l: list<thing>, o: option<thing>) -> option<thing>;
   inspect: func(a: borrow<thing>, b: borrow<thing>, t: tuple<u32, borrow<thing>>) -> u32;
   pass: func(h: holder) -> result<holder, thing>;
+  annotate: func(e: error-context, o: option<error-context>) -> result<u32, error-context>;
 }
 
 interface exp {
@@ -84,11 +95,38 @@ interface exp {
   peek: func(a: borrow<gadget>, b: borrow<gadget>) -> u32;
   stash: func(g: gadget);
   unstash: func() -> option<gadget>;
+  absorb: func(e: error-context, l: list<error-context>, keep: u32) -> u32;
+  relay: func(e: error-context, keep: bool) -> option<error-context>;
+  recall: func() -> u32;
+}
+
+// the exported resource reached through `use` and through a type alias
+interface exp2 {
+  use exp.{gadget};
+  type gadget-alias = gadget;
+  poke: func(g: borrow<gadget>) -> u32;
+  poke-alias: func(g: borrow<gadget-alias>, n: u32) -> u32;
+  swap: func(g: gadget-alias) -> gadget;
+}
+
+// an exported interface that defines a resource and nothing else
+interface types {
+  resource token;
+}
+
+interface exp3 {
+  use types.{token};
+  make-token: func(n: u32) -> token;
+  token-value: func(t: borrow<token>) -> u32;
+  token-sink: func(t: token) -> u32;
 }
 
 world w {
   import imp;
   export exp;
+  export exp2;
+  export types;
+  export exp3;
   export run: func(script: list<u32>) -> u32;
 }
 "#;
